@@ -253,7 +253,7 @@ def run_case(b, home, rec, i, res, attempt=0):
     smtpdrive.clear_dir(rec)
     env = b.env(home, {"QMAILQUEUE": QQREC, "NQV_REC": rec, "TCPREMOTEIP": "192.0.2.9",
                        "TCPREMOTEHOST": "client.test", "TCPLOCALHOST": "mx.test"})
-    s = smtpdrive.Session([home + "/bin/qmail-smtpd"], env, timeout=60)
+    s = smtpdrive.Session([home + "/bin/qmail-smtpd"], env, timeout=120)
     fed = 0
     try:
         if case["mode"] == "whole":
@@ -356,13 +356,13 @@ def run_case(b, home, rec, i, res, attempt=0):
                 else:
                     rule = "bare-lf-session-continued"
             elif k >= len(got):
-                rule = "replies-missing-after-data(terminator-missed-or-session-lost)"
+                rule = "terminator-missed-or-session-lost"
             elif k >= len(exp):
-                rule = "extra-replies(bytes-of-the-message-read-as-commands)"
+                rule = "message-bytes-read-as-commands"
             elif k < len(exp) and exp[k] == "250" and k > 0 and exp[k - 1] == "354":
                 rule = "terminated-message-not-acknowledged"
             else:
-                rule = "resume-position(reply-sequence-differs-after-data)"
+                rule = "resume-position-wrong"
             res.violate("C05/bin/%s/%s" % (rule, cls),
                         "reply %d: got %s, expected %s" % (k, got[k] if k < len(got) else None,
                                                            exp[k] if k < len(exp) else None), wit(bad_tx))
